@@ -13,6 +13,7 @@ import (
 	"fmt"
 	"go/types"
 	"regexp"
+	"sort"
 	"strings"
 
 	"golang.org/x/tools/go/ssa"
@@ -306,13 +307,7 @@ func (sc *schemaCtx) ok(s map[string]any, v Value, t types.Type) *Term {
 		for _, f := range jsonFields(st) {
 			seen[f.name] = true
 			fv := x[f.idx]
-			_, _, present := sc.deref(fv, f.typ)
-			if sl, isSl := fv.(Slice); isSl && sl.a == nil {
-				present = false
-			}
-			if mp, isMp := fv.(*Map); isMp && mp == nil {
-				present = false
-			}
+			present := !ex.jsonAbsent(fv, f.typ, f.omitempty)
 			if !present {
 				if req[f.name] {
 					return tFalse
@@ -367,6 +362,46 @@ func init() {
 			return iv, iv.t != nil
 		}
 		var cs []*Term
+		// response mode: parts = {"response:<status>": body}; the body is held
+		// against the schema documented for that status code
+		if parts != nil {
+			for _, e := range parts.live() {
+				k, _ := e.k.(Str).concrete()
+				if !strings.HasPrefix(k, "response:") {
+					continue
+				}
+				resps, _ := opDoc["responses"].(map[string]any)
+				rd, _ := resps[strings.TrimPrefix(k, "response:")].(map[string]any)
+				if rd == nil {
+					return tFalse // status code not documented
+				}
+				rd = sc.resolve(rd)
+				content, _ := rd["content"].(map[string]any)
+				body := e.v.(Iface)
+				if len(content) == 0 {
+					return mkBool(body.t == nil) // documented without a body
+				}
+				var schema map[string]any
+				// a JSON media type if there is one, else the first one listed
+				// (goa's application/vnd.goa.error is written by the JSON encoder)
+				names := sortedKeys(content)
+				pick := names[0]
+				for _, mt := range names {
+					if strings.Contains(mt, "json") {
+						pick = mt
+						break
+					}
+				}
+				schema, _ = content[pick].(map[string]any)["schema"].(map[string]any)
+				if schema == nil {
+					return tTrue // documented without a schema
+				}
+				if body.t == nil {
+					return tFalse
+				}
+				return sc.ok(schema, body.v, body.t)
+			}
+		}
 		if params, ok := opDoc["parameters"].([]any); ok {
 			for _, p := range params {
 				pm := sc.resolve(p.(map[string]any))
@@ -405,6 +440,15 @@ func init() {
 		}
 		return mkAnd(cs...)
 	}
+}
+
+func sortedKeys(m map[string]any) []string {
+	var ks []string
+	for k := range m {
+		ks = append(ks, k)
+	}
+	sort.Strings(ks)
+	return ks
 }
 
 func mustNativeRe(p string) *regexp.Regexp { return regexp.MustCompile(p) }
